@@ -1,3 +1,3 @@
 SPECIFICATION Spec
-INVARIANTS AllAgree CalendarOK
+INVARIANTS AllAgree
 CHECK_DEADLOCK FALSE
